@@ -131,21 +131,23 @@ def run(ctx):
                 cases = [('serialize_public', pubdata, 'pub_version', SP.TPUB, SP.XPUB)]
                 if cls == PRV:
                     cases.append(('serialize_private', T.cat(T.const(b'\x00'), k), 'prv_version', SP.TPRV, SP.XPRV))
+                # a derived node has depth >= 1 (its parent's depth + 1): depth 0 is the master case below
+                derived = Facts().add(T.not_(T.lt(cf['depth'], T.const(1)))).add(T.lt(cf['depth'], T.const(256)))
                 for meth, keydata, vname, tver, mver in cases:
                     owner = 'bip32.PubKeyNode.' if meth == 'serialize_public' else 'bip32.PrvKeyNode.'
-                    v, f = ev.call_function(owner + meth, [child], {'version': ver})
+                    v, f = ev.call_function(owner + meth, [child], {'version': ver}, facts=derived)
                     exp = SP.serialize(ver, cf['depth'], SP.fingerprint_of_point(P), cf['index'], cf['chain_code'], keydata)
                     same_term(ob, v, exp, '%s of a derived node (78-byte layout)' % meth, fser.where)
                     v, f = ev.call_function(owner + meth, [master], {'version': ver})
                     exp = SP.serialize(ver, T.const(0), T.const(b'\x00' * 4), T.const(0), mf['chain_code'], keydata)
                     same_term(ob, v, exp, '%s of a master node (zero depth, fingerprint, child number)' % meth, fser.where)
                     # default version follows the node's own network
-                    v, f = ev.call_function(owner + meth, [child])
+                    v, f = ev.call_function(owner + meth, [child], facts=derived)
                     dv = T.phi(T.truth(cf['testnet']), T.const(tver), T.const(mver))
                     exp = SP.serialize(dv, cf['depth'], SP.fingerprint_of_point(P), cf['index'], cf['chain_code'], keydata)
                     same_term(ob, v, exp, '%s default version is the node network\'s %s' % (meth, vname), fser.where)
                     xk = 'extended_public_key' if meth == 'serialize_public' else 'extended_private_key'
-                    v, f = ev.call_function(owner + xk, [child], {'version': ver})
+                    v, f = ev.call_function(owner + xk, [child], {'version': ver}, facts=derived)
                     exp = SP.b58check(SP.serialize(ver, cf['depth'], SP.fingerprint_of_point(P), cf['index'],
                                                    cf['chain_code'], keydata))
                     same_term(ob, v, exp, '%s = Base58Check(serialisation)' % xk, fser.where)
